@@ -142,20 +142,27 @@ _installed = [False]
 
 
 class FakeDT(_dt.datetime):
+    """datetime class bound into the ascmhl modules: only the *clock* is virtual.  Every constructor returns a
+    plain datetime object: CPython does not compute `fold` for subclasses in fromtimestamp(), which would make the
+    seam itself misreport times in the repeated hour after a DST switch."""
+
     @classmethod
     def now(cls, tz=None):
         r = _dt.datetime.fromtimestamp(NOW[0], tz)
         NOW[0] += STEP[0]
-        return cls(r.year, r.month, r.day, r.hour, r.minute, r.second, r.microsecond, r.tzinfo, fold=r.fold)
+        return r
 
     @classmethod
     def utcnow(cls):
-        r = _dt.datetime.utcfromtimestamp(NOW[0])
-        return cls(r.year, r.month, r.day, r.hour, r.minute, r.second, r.microsecond)
+        return _dt.datetime.fromtimestamp(NOW[0], _dt.timezone.utc).replace(tzinfo=None)
 
     @classmethod
     def today(cls):
         return cls.now()
+
+    @classmethod
+    def fromtimestamp(cls, t, tz=None):
+        return _dt.datetime.fromtimestamp(t, tz)
 
 
 def _order(dirpath, names):
@@ -203,8 +210,12 @@ def rebind_clock():
     dt_shim = types.ModuleType("datetime")
     dt_shim.__dict__.update(_dt.__dict__)
     dt_shim.datetime = FakeDT
-    tm_shim = types.ModuleType("time")
-    tm_shim.__dict__.update(_time.__dict__)
+    class _TimeShim(types.ModuleType):
+        # everything but the clock itself is read through to the real module (timezone / altzone / tzname
+        # change with tzset(), a copied dict would go stale)
+        def __getattr__(self, name):
+            return getattr(_time, name)
+    tm_shim = _TimeShim("time")
     tm_shim.localtime = lambda s=None: _time.localtime(NOW[0] if s is None else s)
     tm_shim.time = lambda: NOW[0]
     n = 0
